@@ -8,6 +8,7 @@ C2S    : spec/trace/Trace_Order judges, at every depth, the real sorted PatchTre
          rank order), and metamorphic independence pairs over the shipped *.order files (drop an unrelated top-level row).
 """
 import json
+from collections import OrderedDict as od
 
 from .. import core
 from .. import cases
@@ -197,13 +198,60 @@ def run(ctx):
             part = cases.jpaths(fmt.cmd_paths(p2))
             recs.append({"id": "indep-%d" % len(recs), "kind": "indep", "full": full, "part": part, "sample": name, "dropped": row.split(),
                          "prefix": registry_connector.get().match(hw).reverse})
+    # ---- the shipped huawei.order against the device dependencies its own comments document (spec/ShippedDeps.tla): inputs that bring
+    # both commands of a fact into one patch (in both input orders, alone and among other changes, on several models)
+    def T(lines):
+        return od((ln[0], T(ln[1])) if isinstance(ln, tuple) else (ln, od()) for ln in lines)
+    BFD = ("bfd to_pe1 bind peer-ip 10.0.0.1 vpn-instance V", ["discriminator local 1"])
+    PORT = "interface 10GE1/0/1"
+    dep_inputs = [
+        ("create", ["evpn-overlay enable"], ["ip vpn-instance V"]),
+        ("remove", [BFD], [("ip vpn-instance V", ["ipv4-family"])]),
+        ("remove", [("bgp 65000", ["router-id 1.1.1.1"])], [BFD]),
+        ("create", [("isis 1", ["network-entity 49.0001.0000.0000.0001.00"])], [(PORT, ["isis enable 1"])]),
+        ("create", [("diffserv domain D", ["8021p-inbound 0 phb be green"])], [(PORT, ["trust upstream D"])]),
+        ("create", [(PORT, ["undo portswitch"])], [(PORT + ".100", ["vlan-type dot1q 100"])]),
+        ("create", [(PORT, ["undo portswitch"])], ["ip route-static 10.0.0.0 8 10.1.1.1"]),
+        ("remove", [("interface Vlanif100", ["ip address 10.0.0.1 24"])], ["vlan batch 100"]),
+        ("create", [("acl number 3000", ["rule 5 permit ip"])], [("traffic classifier C", ["if-match acl 3000"])]),
+        ("create", [("traffic classifier C", ["if-match acl 3000"])], [("traffic policy P", ["classifier C behavior B"])]),
+        ("create", [("traffic behavior B", ["permit"])], [("traffic policy P", ["classifier C behavior B"])]),
+        ("create", ["mpls"], [(PORT, ["mpls"])]),
+        ("remove", [("interface Eth-Trunk1.100", ["vlan-type dot1q 100"])], [("interface Eth-Trunk1", ["mode lacp-static"])]),
+        ("remove", [(PORT, ["eth-trunk 1"])], [("interface Eth-Trunk1", ["mode lacp-static"])]),
+        ("remove", [(PORT, ["qos queue 1 wred DP"])], [("drop-profile DP", ["color green low-limit 70 high-limit 100 discard-percentage 10"])]),
+    ]
+    noise = ["sysname x", "ntp-service unicast-server 10.9.9.9", ("interface LoopBack0", ["ip address 10.255.0.1 32"]), "snmp-agent sys-info version v3"]
+    exercised = 0
+    for fi, (dirn, a, b) in enumerate(dep_inputs):
+        for model in ("Huawei CE6870", "Huawei NE40E-X8", "Huawei S6720") if not quick else ("Huawei CE6870", "Huawei NE40E-X8"):
+            hw = E.hwview(model, "")
+            fmt = registry_connector.get().match(hw).make_formatter(indent="")
+            for lines in (a + b, b + a, noise[:2] + b + a + noise[2:]):
+                old, new = (T([]), T(lines)) if dirn == "create" else (T(lines), T([]))
+                if lines[0] in noise:          # the bystanders change too (created or removed with the rest)
+                    pass
+                try:
+                    _d, p = api._diff_and_patch(E.device(hw), old, new, None, None, False)
+                    cmds = [list(k[0].split()) for k in fmt.cmd_paths(p) if len(k) == 1]
+                except Exception as e:
+                    ctx.skip("deps tier: annet raised %s" % type(e).__name__)
+                    continue
+                recs.append({"id": "deps-%d-%d" % (fi + 1, len(recs)), "kind": "deps", "fact": fi + 1, "cmds": cmds, "sample": model})
     ctx.count(len(recs))
     if recs:
         verd = ctx.judge("trace/Trace_Order.tla", "trace/Trace.cfg", [{k: v for k, v in r.items() if k not in ("sample",)} for r in recs],
-                         env={"AUX_FILE": aux}, shards=8, name="Trace_Order[independence]")
+                         env={"AUX_FILE": aux}, shards=8, name="Trace_Order[independence+deps]")
         for rec in recs:
-            if verd[rec["id"]][0] != "ok":
-                ctx.reject(rec["id"], verd[rec["id"]][0], rec, None)
+            v = verd[rec["id"]][0]
+            if v == "fact-not-exercised":
+                ctx.skip("deps tier: the patch lacks a command of the fact (patching rules of this model)")
+            elif v != "ok":
+                ctx.reject(rec["id"], v, rec, None)
+            elif rec["kind"] == "deps":
+                exercised += 1
+                ctx.nontrivial(json.dumps(["deps", rec["fact"], rec["cmds"]]))
+    ctx.cov["documented_dependency_checks"] = exercised
 
 
 def signature_of(rec, clause):
